@@ -8,6 +8,7 @@ an ether.  Every nondeterministic choice goes through the Chooser.  At every tra
   rep(n, gap)             heard n = 2, 3 times by both: in one loop iteration (gap 0: one serial read), 20 ms apart, or 150 ms apart
                           (interleaved with later frames)
   lose_peer / lose_all    the other end / nobody hears this transmission
+  lose_self               the sender's own gateway does not hear the echo of this transmission, the other end does
   deaf_cmd / lose_cmd     the other end / nobody hears this command at all (every retransmission of it)
   late(dt)                the other end hears it dt seconds late: just inside / outside the 3 s and 5 s waits
   tie(n)                  the other end hears it n = 1..5 loop iterations before the wait it ends expires (an iteration takes
@@ -205,7 +206,7 @@ class BindWorld:
             if "rep" in self.dev:
                 menu += [(("rep", n, gap), 1) for n in (2, 3) for gap in (0.0, 0.02, 0.15)]
             if "lose" in self.dev and frame not in self.cmd_fate:
-                menu += [(("lose_peer",), 1), (("lose_all",), 1), (("lose_cmd",), 1), (("deaf_cmd",), 1)]
+                menu += [(("lose_peer",), 1), (("lose_all",), 1), (("lose_cmd",), 1), (("deaf_cmd",), 1), (("lose_self",), 1)]
             if "late" in self.dev:
                 menu += [(("late", dt), 1) for dt in (2.95, 3.05, 4.95, 5.05, 5.15)]
                 menu += [(("tie", n), 1) for n in (1, 2, 3, 4, 5)]
@@ -230,7 +231,8 @@ class BindWorld:
         if k == "rep":
             times = [0.01 + i * fate[2] for i in range(fate[1])]
         for t in times:
-            loop.call_later(t, self._hear, me, wire)
+            if k != "lose_self":  # (the sender's own gateway misses the echo of this transmission; the other end hears it)
+                loop.call_later(t, self._hear, me, wire)
             if k == "lose_peer":
                 continue
             if k == "tie":
